@@ -22,10 +22,19 @@ OUT OF OR IN CONNECTION WITH THE SOFTWARE OR THE USE OR OTHER DEALINGS IN
 THE SOFTWARE.
 """
 
-import functools
-import shlex
+import re
 
 from pytools import UniqueNameGenerator
+
+
+# A token is a maximal run of non-blank characters, where blanks inside a
+# quoted string do not count, no matter where in the token the string starts.
+_TOKEN_RE = re.compile(r"""(?:[^\s'"]|'[^']*'|"[^"]*"|['"])+""")
+
+
+def split_line_into_tokens(line):
+    """Split *line* at blanks that are not inside a quoted string."""
+    return _TOKEN_RE.findall(line)
 
 
 def wrap_line_base(line, level=0, width=80, indentation="    ",
@@ -42,7 +51,7 @@ def wrap_line_base(line, level=0, width=80, indentation="    ",
     `lex_func` argument returns the list of tokens in the line.
     """
     if lex_func is None:
-        lex_func = functools.partial(shlex.split, posix=False)
+        lex_func = split_line_into_tokens
 
     tokens = lex_func(line)
     resulting_lines = []
